@@ -186,6 +186,10 @@ func parseFlowDesc(flowDesc, ueIP string) (*ipFilterRule, error) {
 		}
 	}
 
+	if ipf.src.IPNet == nil || ipf.dst.IPNet == nil {
+		return nil, errBadFilterDesc
+	}
+
 	parseLog = parseLog.With("ip-filter", ipf)
 	parseLog.Debugln("flow description parsed successfully")
 
